@@ -469,11 +469,20 @@ impl TableStore {
     }
 
     fn add_head(&self, table: &Arc<ReadonlyTable>) -> TableStoreResult<()> {
+        #[cfg(jj_vcs_jj_verif)]
+        crate::verif::point("table:add_head", &self.dir.join("heads").join(&table.name))
+            .map_err(TableStoreError::SaveHeads)?;
         std::fs::write(self.dir.join("heads").join(&table.name), "")
             .map_err(TableStoreError::SaveHeads)
     }
 
     fn remove_head(&self, table: &Arc<ReadonlyTable>) {
+        #[cfg(jj_vcs_jj_verif)]
+        crate::verif::point(
+            "table:remove_head",
+            &self.dir.join("heads").join(&table.name),
+        )
+        .ok();
         // It's fine if the old head was not found. It probably means
         // that we're on a distributed file system where the locking
         // doesn't work. We'll probably end up with two current
@@ -497,6 +506,8 @@ impl TableStore {
             err,
         };
         let table_file_path = self.dir.join(&name);
+        #[cfg(jj_vcs_jj_verif)]
+        crate::verif::point("table:load_segment", &table_file_path).map_err(to_load_err)?;
         let mut table_file = File::open(table_file_path).map_err(to_load_err)?;
         let table = ReadonlyTable::load_from(&mut table_file, self, name, self.key_size)?;
         {
@@ -508,6 +519,9 @@ impl TableStore {
 
     fn get_head_tables(&self) -> TableStoreResult<Vec<Arc<ReadonlyTable>>> {
         let mut tables = vec![];
+        #[cfg(jj_vcs_jj_verif)]
+        crate::verif::point("table:list_heads", &self.dir.join("heads"))
+            .map_err(TableStoreError::LoadHeads)?;
         for head_entry in
             std::fs::read_dir(self.dir.join("heads")).map_err(TableStoreError::LoadHeads)?
         {
